@@ -24,6 +24,14 @@ def pcc_landscape(
         for c, shiftl, shiftr, s in zip(centers, max_shifts, max_shifts, power.shape)
     )
     power = power[slices]
+    # NOTE: if the search range exceeds the image, pad with zeros so that the landscape
+    # always has the shape of 2 * int(max_shifts) + 1.
+    pads = tuple(
+        (max(int(shift) - c, 0), max(c + int(shift) + 1 - s, 0))
+        for c, shift, s in zip(centers, max_shifts, f0.shape)
+    )
+    if any(p0 > 0 or p1 > 0 for p0, p1 in pads):
+        power = backend.pad(power, pads, mode="constant", constant_values=0)
     return power
 
 
